@@ -390,6 +390,13 @@ var tailFixed = []string{
 	"+space (def g 0) (defn f [n] (probe 1) (set g (+ g n)) (cond (== n 0) g (f (- n 1)))) (f 0) (f 4) g (f 1000) g",
 }
 
+// wrong-arity self tail calls that fail on the unrepaired tree too (stack underflow): an error either way
+var tailArityErr = []string{
+	"(defn g [a b] (cond (> a 0) (g 0) (+ a b))) (g 1 2) (+ 100 (g 1 2))",
+	"(defn g [a & r] (cond (> a 0) (g) a)) (g 1)",
+	"(defn g [a & r] (cond (> a 0) (g 0 1 2) (len r))) (g 1) (g 0)",
+}
+
 // Inputs on which the unrepaired tree breaks C09; each is repaired by a proposed fix
 // (fixes/C09-*) and listed in notes/C09.known.json under its exact op line.
 var tailKnown = []string{
@@ -400,8 +407,6 @@ var tailKnown = []string{
 	"+space (defn f [n] (probe 1) (let [a (def b 1)] (cond (== n 0) 0 (f (- n 1))))) (f 0) (f 3) (f 50)",
 	// C09-02 arity of a self tail call
 	"+w5 +f20000 (defn g [a] (cond (> a 0) (g 0 7) a)) (g 1)",
-	"(defn g [a b] (cond (> a 0) (g 0) (+ a b))) (g 1 2) (+ 100 (g 1 2))",
-	"(defn g [a & r] (cond (> a 0) (g) a)) (g 1)",
 }
 
 func tailFixedOp(s string) string {
@@ -442,6 +447,10 @@ func tailFixedOp(s string) string {
 
 func tailGen(g *Gen) {
 	for _, s := range tailFixed {
+		g.Emit("%s", tailFixedOp(s))
+		g.Count("fixed")
+	}
+	for _, s := range tailArityErr {
 		g.Emit("%s", tailFixedOp(s))
 		g.Count("fixed")
 	}
